@@ -127,3 +127,36 @@ func VerifC19_CompletePath(h *zz.H) {
 	h.Trace("complete", len(got))
 	h.Assert(c19Eq(got, spec), "C19: combined index = origin, prefix index, path index")
 }
+
+// VerifC19_KeyNames: one element with two or three keys whose NAMES are symbolic byte strings
+// (1..B ASCII bytes, so that one name may be a prefix of another and continue with any byte) and
+// whose values are fixed and distinct: the key values appear ordered by key name - decided on the
+// names' content, which an order on arbitrary-string atoms cannot express for code that builds
+// composite strings from them.
+func VerifC19_KeyNames(h *zz.H) {
+	B := h.Param("B", 2)
+	nk := h.Range("keys", 2, h.Param("K", 2))
+	vals := []string{"v1", "v2", "v3"}
+	var kvs []c19KV
+	e := &gpb.PathElem{Name: "e", Key: map[string]string{}}
+	for j := 0; j < nk; j++ {
+		k := h.Bytes("key", B)
+		h.Assume(k != "")
+		for _, o := range kvs {
+			h.Assume(o.k != k)
+		}
+		kvs = append(kvs, c19KV{k, vals[j]})
+		e.Key[k] = vals[j]
+	}
+	for a := 1; a < len(kvs); a++ {
+		for b := a; b > 0 && kvs[b].k < kvs[b-1].k; b-- {
+			kvs[b], kvs[b-1] = kvs[b-1], kvs[b]
+		}
+	}
+	spec := []string{"e"}
+	for _, kv := range kvs {
+		spec = append(spec, kv.v)
+	}
+	got := ToStrings(&gpb.Path{Elem: []*gpb.PathElem{e}}, false)
+	h.Assert(c19Eq(got, spec), "C19: list keys appear as their values ordered by key name right after their element")
+}
